@@ -573,7 +573,17 @@ func asmMainLoopWays() []asmWay {
 	selLeaf := w.leaves[selIdx]
 	sel := selLeaf.st.(*ast.SelectStmt)
 	loop, ok := selLeaf.loops[len(selLeaf.loops)-1].(*ast.ForStmt)
-	if !ok || loop.Cond != nil || loop.Init != nil || loop.Post != nil {
+	// `for { … break … }`, or the flag form `for stop := false; !stop; { … stop = true … }` (setting the flag is then a way out)
+	var flagObj *ast.Object
+	if ok && loop.Cond != nil {
+		if ue, isNot := loop.Cond.(*ast.UnaryExpr); isNot && ue.Op == token.NOT {
+			flagObj = rtIdentObj(ue.X)
+		}
+		if flagObj == nil {
+			return fail("loop-shape")
+		}
+	}
+	if !ok || loop.Post != nil || (loop.Init != nil && flagObj == nil) {
 		return fail("loop-shape")
 	}
 	loopIdx := -1
@@ -669,6 +679,14 @@ func asmMainLoopWays() []asmWay {
 			if l.owner != 0 {
 				continue
 			}
+		case *ast.AssignStmt:
+			if flagObj == nil || l.owner != 0 || len(v.Lhs) != 1 || len(v.Rhs) != 1 || rtIdentObj(v.Lhs[0]) != flagObj {
+				continue
+			}
+			if id, isID := v.Rhs[0].(*ast.Ident); !isID || id.Name != "true" || id.Obj != nil {
+				return fail("control-flow")
+			}
+			isBreak = true
 		default:
 			continue
 		}
